@@ -26,7 +26,8 @@ PLAN = {
     },
     "thorough": {
         "svc_models": [("q1k", dict(names="Names2", words="Words5", max_rl=1, pre=True, keep_old=True), 8),
-                       ("t1p", dict(names="Names3", words="Words5", max_rl=1, pre=True, keep_old=False), 40),
+                       ("t1", dict(names="Names3", words="Words5", max_rl=1, pre=False, keep_old=False), 3),
+                       ("t3n", dict(names="Names3", words="Words3", max_rl=1, pre=True, keep_old=False), 30),
                        ("t2r", dict(names="Names2", words="Words5", max_rl=2, pre=True, keep_old=False), 25),
                        ("tfree", dict(names="Names2", words="Words3", max_rl=1, pre=False, free=True, keep_old=False), 400)],
         "svc_workers": 16,
@@ -82,7 +83,7 @@ def make_sanity_jobs(jobs, limit=4):
     for j in jobs:
         if len(j["files"]) == 2 and j["files"][0] == j["files"][1] and j["files"][0]:
             ev = [dict(x, ev={"e": "RLF"}) if x["ev"]["e"] == "RL" else x for x in j["events"]]
-            out.append({"old": j["old"], "events": ev, "files": [j["old"]], "sanity": True})
+            out.append({"old": j["old"], "events": ev, "files": [j["old"]], "sanity": True, "omit_empty": False})
             if len(out) >= limit:
                 break
     return out
@@ -298,11 +299,13 @@ def run(ctx):
     # 2. replay on the real daemon
     jobs = [RR.svc_job_of_history(h) for h in histories]
     ctx.rng.shuffle(jobs)
+    for n, j in enumerate(jobs):
+        j["omit_empty"] = (n % 2 == 1)        # every other history: an empty section is left out of the file altogether
     jobs += make_sanity_jobs(jobs)
     res_s = RR.replay_svc(ctx, jobs, nproc=plan["nproc"])
     pre_modes = ["idle", "done", "pending"]
     cjobs = [{"svcs": c["svcs"], "chain": c["chain"], "clis": c["clis"], "kinds": c["kinds"], "nm": c["nm"], "want": c["want"],
-              "pre": pre_modes[n % 3]} for n, c in enumerate(chains)]
+              "pre": pre_modes[n % 3], "omit_empty": (n % 2 == 1)} for n, c in enumerate(chains)]
     res_c = RR.replay_cls(ctx, cjobs, nproc=plan["nproc"])
 
     # 3. TLC judges
